@@ -16,7 +16,7 @@ SPEC = dict(
     assumptions=["R3 (ref.next_build) is the README's lexical-id successor; ids that are all 9s are the documented "
                  "maximum and are only required not to be 'bumped' to a smaller/equal value"],
     required=["single_steps", "chain_steps", "expansion:4->5", "expansion:5->6", "expansion:6->7",
-              "chain_steps_with_other_flags"],
+              "chain_steps_with_other_flags", "update_chain_steps", "update_chain_untagged_releases"],
     anchors=[("v2version", "_incr_numeric"), ("v2version", "parse_field_values_to_vinfo"), ("v2patterns", "_fmt_bld")],
     exhaustive={"quick": True, "thorough": True},
     exhaustive_note="start ids of 1..4 (quick) / 1..5 (thorough) digits are enumerated completely; chains and 6-7 digit "
@@ -45,6 +45,15 @@ def cases(ctx):
     for k, b in enumerate(fixed):
         if ctx.mine(k):
             yield {"kind": "chain", "start": b, "steps": 60, "pat": k % len(PATTERNS), "bld": False}
+    # successive `bumpver update` runs (config + tags served by a fake git, some releases left untagged), starting
+    # just below a digit-length expansion
+    k = 0
+    for start in ("0997", "997", "09997", "9997", "1997", "0097", "18997", "97"):
+        for upat in range(len(UPDATE_PATTERNS)):
+            for variant in range(2 if ctx.quick else 8):
+                if ctx.mine(k):
+                    yield {"kind": "update-chain", "start": start, "upat": upat, "variant": variant}
+                k += 1
     n_chains = ctx.size(16, 64)
     for _ in range(n_chains):
         start = R.choice(["1", "0001", "0999", "1000", "999", "09", "8990", "19990", "98", "00001", "1990", "0000",
@@ -80,14 +89,14 @@ def step(ctx, pat, tmpl, b, extra=()):
     return new[len(pre):len(new) - len(post)] if post else new[len(pre):], res
 
 
-def judge(ctx, case, b, nb, res, generated):
+def judge(ctx, case, b, nb, res, generated, successor=None):
     if set(b) == {"9"}:
         if nb is not None and not (nb.isdigit() and int(nb) > int(b)):
             ctx.violation("other:max_id_bumped_to_non_greater", f"{b!r} -> {nb!r}", case=case)
         ctx.count("max_ids")
         return
     try:
-        exp = ref.next_build(b)
+        exp = (successor or ref.next_build)(b)
     except OverflowError:
         exp = None
     if nb is None:
@@ -111,7 +120,77 @@ def judge(ctx, case, b, nb, res, generated):
         ctx.count(f"expansion:{len(b)}->{len(nb)}")
 
 
+UPDATE_PATTERNS = [("vYYYY.BUILD", "v2021.{b}", False), ("YYYY0M.BUILD[-TAG]", "202103.{b}-beta", False),
+                   ("{pycalver}", "v202103.{b}-beta", True), ("MAJOR.BUILD", "3.{b}", False)]
+
+
+def run_update_chain(ctx, case):
+    import os
+    pat, tmpl, legacy = UPDATE_PATTERNS[case["upat"]]
+    b = case["start"]
+    if legacy and len(b) < 4:
+        raise harness.Skip("legacy-build-has-4-digits")
+    R = random.Random(f"u:{case['start']}:{case['upat']}:{case['variant']}")
+    scope = R.choice(["default", "default", "global"]) if not legacy else "default"
+    cur = tmpl.format(b=b)
+    cfg = (f'[bumpver]\ncurrent_version = "{cur}"\nversion_pattern = "{pat}"\ncommit = true\ntag = true\npush = false\n'
+           + (f'tag_scope = "{scope}"\n' if scope != "default" else "")
+           + '\n[bumpver.file_patterns]\n"bumpver.toml" = [\'current_version = "{version}"\']\n')
+    d = harness.new_project({"bumpver.toml": cfg})
+    fake = harness.FakeVCS(d, "git")
+    tags = [cur]
+    generated = False
+    try:
+        fake.set_out("status", "")
+        for i in range(8):
+            tagged = scope != "default" or R.random() < 0.6
+            fake.set_out("tag-list", "".join(t + "\n" for t in tags))
+            fake.set_out("tag-merged", "".join(t + "\n" for t in tags))
+            args = ["update", "--no-fetch", "--date", "2021-03-04"] + ([] if tagged else ["--no-tag-commit"])
+            res = harness.invoke(args, cwd=d, env=fake.env)
+            new = res.record_value("New Version: ") if res.exit_code == 0 else None
+            nb = None
+            if new:
+                if legacy:
+                    from bvmon import ref_v1
+                    raw = ref_v1.parse(ref_v1.parse_pattern(pat), new)
+                    nb = (raw or {}).get("bid") if isinstance(raw, dict) else None
+                    if nb is None:
+                        import re
+                        m = re.match(r"v\d{6}\.(\d+)", new)
+                        nb = m.group(1) if m else None
+                else:
+                    raw = ref.parse(ref.parse_pattern(pat), new)
+                    nbs = [t for n, t in (raw or []) if n == "BUILD"]
+                    nb = nbs[0] if nbs else None
+            ctx.count("update_chain_steps")
+            if not tagged:
+                ctx.count("update_chain_untagged_releases")
+            ctx.evaluated((len(b), len(nb) if nb else -1, b[0] == "0", pat, "update-chain", tagged))
+            succ = None
+            if legacy:
+                from bvmon import ref_v1
+                succ = ref_v1.next_bid      # the legacy engine keeps ids below 1000 as they are (plain lexical successor)
+            judge(ctx, dict(case, at=b, step=i, tags=list(tags), argv=args), b, nb, res, generated, successor=succ)
+            if nb is None:
+                break
+            with open(os.path.join(d, "bumpver.toml")) as f:
+                if f'current_version = "{new}"' not in f.read():
+                    ctx.violation("other:config_not_updated_in_update_chain", f"{args}: announced {new!r}", case=case)
+                    break
+            if tagged:
+                tags.append(new)
+            b = nb
+            generated = True
+            fake.reset()
+    finally:
+        harness.rm_dir(d)
+        fake.destroy()
+
+
 def run_case(ctx, case):
+    if case["kind"] == "update-chain":
+        return run_update_chain(ctx, case)
     pat, tmpl = PATTERNS[case["pat"]]
     if case["kind"] == "step":
         b = case["start"]
